@@ -589,9 +589,8 @@ func (b *BaseStore) Load(ctx context.Context, amount int) error {
 			// log by the size it is given and a size above the log's length is out of range
 			if _, inErr = oplog.Join(l, -1); inErr != nil {
 				span.AddEvent("store-heads-joining-failed")
-				// err = fmt.Errorf("unable to join log: %w", err)
-				// TODO: log
-				_ = inErr
+				b.logger.Debug("unable to join the history of a cached head as a whole, joining its entries one by one", zap.Error(inErr))
+				b.joinOneByOne(ctx, oplog, l)
 			} else {
 				span.AddEvent("store-heads-joined")
 			}
@@ -625,6 +624,44 @@ func (b *BaseStore) Load(ctx context.Context, amount int) error {
 	}
 
 	return nil
+}
+
+// joinOneByOne merges the entries of a fetched log that was refused as a whole. Join
+// verifies every entry of the log it is given and refuses all of them when one fails:
+// a single rejected ancestor (its block is still in the local store) would cost the
+// replica everything it held before the restart. The entries are read again by their
+// address and joined alone, oldest first, as the replicator does; refused ones are skipped.
+// Must be called with muJoining held.
+func (b *BaseStore) joinOneByOne(ctx context.Context, oplog ipfslog.Log, l ipfslog.Log) {
+	one := 1
+
+	for _, e := range l.Values().Slice() {
+		if _, ok := oplog.Get(e.GetHash()); ok {
+			continue
+		}
+
+		single, err := ipfslog.NewFromEntryHash(ctx, b.IPFS(), b.Identity(), e.GetHash(), &ipfslog.LogOptions{
+			ID:               oplog.GetID(),
+			AccessController: b.AccessController(),
+			SortFn:           b.SortFn(),
+			IO:               b.options.IO,
+		}, &ipfslog.FetchOptions{
+			Length: &one,
+		})
+		if err != nil {
+			b.logger.Debug("unable to read entry again while loading", zap.String("hash", e.GetHash().String()), zap.Error(err))
+			continue
+		}
+
+		if single.Len() == 0 {
+			continue
+		}
+
+		if _, err := oplog.Join(single, -1); err != nil {
+			b.logger.Debug("entry refused while loading", zap.String("hash", e.GetHash().String()), zap.Error(err))
+			continue
+		}
+	}
 }
 
 // trimLog keeps the amount most recent entries of the log, if it holds more than that
